@@ -67,9 +67,17 @@ Definition lz4_copy (n : nat) (off : nat) (racc : bytes) : option bytes :=
     if Nat.ltb (length pat) off then None
     else Some (lz4_cycle n pat pat racc).
 
-(* take with the length in N, refusing early when the input is shorter (no huge unary numbers) *)
+(* [shorter_than l k]: l has fewer than k elements; walks at most min(length l, k) cells (no length computation, no huge unary
+   numbers on hostile input) *)
+Fixpoint shorter_than (l : bytes) (k : N) : bool :=
+  match l with
+  | [] => negb (N.eqb k 0)
+  | _ :: r => if N.eqb k 0 then false else shorter_than r (N.pred k)
+  end.
+
+(* take with the length in N, refusing early when the input is shorter *)
 Definition take_N (n : N) (b : bytes) : option (bytes * bytes) :=
-  if N.ltb (N.of_nat (length b)) n then None else take_n (N.to_nat n) b.
+  if shorter_than b n then None else take_n (N.to_nat n) b.
 
 Fixpoint lz4_loop (fuel : nat) (b : bytes) (racc : bytes) : res bytes :=
   match fuel with
